@@ -70,7 +70,7 @@ var groups = map[string]*Group{
 
 func init() {
 	for _, pkg := range []string{"p3", "p2"} {
-		groups[pkg] = &Group{Name: pkg, Corpus: true, Pkg: "./" + pkg, PkgName: pkg, Targets: []string{csprotoPath},
+		groups[pkg] = &Group{Name: pkg, Corpus: true, Pkg: "./" + pkg, PkgName: pkg, Targets: []string{csprotoPath, csprotoPath + "/lazyproto"},
 			Merge: pureMerge, StubPkgs: runtimeStubPkgs, SkipTargetInit: true, ResetStub: true, Unwind: 300, ExtraRT: "pb",
 			FmParams: "paths=source_relative,apiversion=v2"}
 		// generator option variants: the per-message-file template and unsafe string decoding. The field snippets are
